@@ -232,6 +232,49 @@ def _copy_loc(new_nodes, ref):
     return new_nodes
 
 
+def _rewrite_index_scan_buf(body, i):
+    """body[i] is `while pos < size and T(text[pos]): B.append(text[pos]);
+    pos += 1` - the buffer form of the index scan.  Faithful rewrite to the
+    character loop (the test is kept verbatim over ``char``)."""
+    loop = body[i]
+    test = loop.test
+    conj = test.values if isinstance(test, ast.BoolOp) and isinstance(
+        test.op, ast.And) else [test]
+    bound = [c for c in conj if unparse(c) in ('pos < size', 'size > pos')]
+    rest = [c for c in conj if c not in bound]
+    if len(bound) != 1 or not rest or loop.orelse or len(loop.body) != 2:
+        return False
+    a, b = loop.body
+    if not (_is_inc(b) and isinstance(a, ast.Expr) and isinstance(
+            a.value, ast.Call) and isinstance(a.value.func, ast.Attribute)
+            and a.value.func.attr == 'append' and len(a.value.args) == 1
+            and unparse(a.value.args[0]) == 'text[pos]'
+            and isinstance(a.value.func.value, ast.Name)):
+        return False
+    buf = a.value.func.value.id
+    cond = clone(ast.BoolOp(op=ast.And(), values=rest) if len(rest) > 1
+                 else rest[0])
+    for x in list(ast.walk(cond)):
+        if isinstance(x, ast.Subscript) and isinstance(
+                x.value, ast.Name) and x.value.id == 'text' and isinstance(
+                    x.slice, ast.Name) and x.slice.id == 'pos':
+            x.__class__ = ast.Name
+            x.__dict__.clear()
+            x.id = 'char'
+            x.ctx = ast.Load()
+    new = _parse(
+        'while pos < size:\n'
+        '    char = text[pos]\n'
+        '    pos += 1\n'
+        '    if not (COND):\n'
+        '        pos -= 1\n'
+        '        break\n'
+        f'    {buf}.append(char)\n'.replace('COND', unparse(cond)))
+    _copy_loc(new, loop)
+    body[i:i + 1] = new
+    return True
+
+
 def _rewrite_index_scan(body, i, verdicts, orig_of):
     """body[i] is `while <pos < size and T(text[pos])>: pos += 1`."""
     loop = body[i]
@@ -524,7 +567,15 @@ def _rewrite_find(body, i, verdicts, orig_of, start_chars):
     st0 = body[i]
     c = _find_call(st0)
     o = orig_of(st0)
-    if c.func.attr != 'find' or not c.args or not (
+    raising = c.func.attr == 'index'
+    if raising:
+        verdicts.append(Verdict(
+            False, 'lexeme when no terminator before the end of the text',
+            f'text.index({c.args[0].value if c.args and isinstance(c.args[0], ast.Constant) else "?"!r}, ...) raises ValueError when the text '
+            'ends inside the lexeme (a comment on the last line without a '
+            'final line feed): the parse aborts instead of yielding the '
+            'lexeme up to the end of the text', o))
+    if c.func.attr not in ('find', 'index') or not c.args or not (
             isinstance(c.args[0], ast.Constant) and isinstance(
                 c.args[0].value, str) and len(c.args[0].value) == 1) or \
             len(c.args) > 2 or c.keywords:
@@ -559,19 +610,21 @@ def _rewrite_find(body, i, verdicts, orig_of, start_chars):
     region = body[i + 1:last + 1]
     # the lexeme variable: the string-valued name assigned in the region
     results = {}
-    for found in (True, False):
+    for found in ((True, ) if raising else (True, False)):
         env = dict(base)
         env[ename] = {'e': 1} if found else {1: -1}
         senv = {}
         _exec_region(region, env, senv, found)
         results[found] = (env, senv)
+    if raising:
+        results[False] = results[True]
     lexnames = sorted(set(results[True][1]) & set(results[False][1]))
     if len(lexnames) != 1:
         raise AnalysisError(
             'scanner idiom: find/slice region does not define exactly one '
             f'lexeme string (found {lexnames})')
     lex = lexnames[0]
-    for found in (True, False):
+    for found in ((True, ) if raising else (True, False)):
         env, senv = results[found]
         got = _simplify(senv[lex], found, term)
         # evaluate with the search really starting at pos (k judged above)
@@ -792,6 +845,33 @@ def normalised_scanner(m, fname='parse_smtlib'):
     f._parent = getattr(f0, '_parent', None)
     _rename(f, _canonical_names(f))
     verdicts, notes = [], []
+    # "end = text.find(c, pos) + 1" -> "end = text.find(c, pos); end = end + 1"
+    for body in _blocks(f):
+        i_ = 0
+        while i_ < len(body):
+            st = body[i_]
+            if isinstance(st, ast.Assign) and len(st.targets) == 1 and \
+                    isinstance(st.targets[0], ast.Name) and not isinstance(
+                        st.value, ast.Call):
+                inner = [c for c in ast.walk(st.value)
+                         if isinstance(c, ast.Call) and isinstance(
+                             c.func, ast.Attribute)
+                         and c.func.attr in ('find', 'index')
+                         and isinstance(c.func.value, ast.Name)
+                         and c.func.value.id == 'text']
+                if len(inner) == 1:
+                    tgt = st.targets[0].id
+                    first = _parse(f'{tgt} = 0')[0]
+                    first.value = clone(inner[0])
+                    _copy_loc([first], st)
+                    c = inner[0]
+                    c.__class__ = ast.Name
+                    c.__dict__.clear()
+                    c.id = tgt
+                    c.ctx = ast.Load()
+                    body.insert(i_, first)
+                    i_ += 1
+            i_ += 1
 
     def orig_of(node):
         return node  # positions were copied by clone()
@@ -812,8 +892,9 @@ def normalised_scanner(m, fname='parse_smtlib'):
                             isinstance(x, ast.Assign) and unparse(
                                 x.value) == 'text[pos]'
                             for x in ast.walk(st)):
-                    _rewrite_index_scan(body, i, verdicts, orig_of)
-                    notes.append('index scan with slice rewritten to a '
+                    if not _rewrite_index_scan_buf(body, i):
+                        _rewrite_index_scan(body, i, verdicts, orig_of)
+                    notes.append('index scan rewritten to a '
                                  f'character loop (line {st.lineno})')
                     changed = True
                     break
